@@ -398,6 +398,23 @@ fn svc_campaign(args: &Args) -> Report {
         if i < 1 {
             rep.sample(desc.clone());
         }
+        if pi % 3 == 2 {
+            // every third program: the creator leaves as last user while 1-3 others are opening
+            let openers = rng.range(1, 3) as usize;
+            let desc = Json::obj().set("pattern", format!("{:?}", pat)).set("program", "last user drops while others open").set("openers", openers).set("service", if ipc { "ipc" } else { "local" });
+            campaign(&mut rep, &mut rng, &b, "C06", &desc, &replay, vkit::fnv_str(&format!("drop{:?}{}", pat, openers)), &mut |m| {
+                tag += 1;
+                let res = || d.residue().into_iter().filter(|f| f.contains("service") || f.contains("dynamic")).collect::<Vec<_>>();
+                if ipc { svcrace::execute_drop_race::<iceoryx2::service::ipc_threadsafe::Service>(&d.config, pat, openers, m, tag, &res) } else { svcrace::execute_drop_race::<iceoryx2::service::local_threadsafe::Service>(&d.config, pat, openers, m, tag, &res) }
+            });
+            rep.count("drop_race_programs", 1);
+            let _ = dom::drain_bad_logs(&[]);
+            i += 1;
+            if b.only_prog.is_some() {
+                break;
+            }
+            continue;
+        }
         campaign(&mut rep, &mut rng, &b, "C06", &desc, &replay, vkit::fnv_str(&format!("{:?}{:?}", cfg.pat, cfg.roles)), &mut |m| {
             tag += 1;
             let res = || d.residue().into_iter().filter(|f| f.contains("service") || f.contains("dynamic")).collect::<Vec<_>>();
